@@ -1,0 +1,23 @@
+//go:build verif
+
+package target
+
+import (
+	"sync"
+
+	"github.com/sdcio/data-server/pkg/config"
+	schemaClient "github.com/sdcio/data-server/pkg/datastore/clients/schema"
+	"github.com/sdcio/data-server/pkg/datastore/target/netconf"
+)
+
+// NewNCTargetWithDriver creates the netconf target like newNCTarget() does, but uses the given driver.
+func NewNCTargetWithDriver(name string, cfg *config.SBI, schemaClient schemaClient.SchemaClientBound, d netconf.Driver) Target {
+	return &ncTarget{
+		name:             name,
+		m:                new(sync.Mutex),
+		schemaClient:     schemaClient,
+		sbiConfig:        cfg,
+		xml2sdcpbAdapter: netconf.NewXML2sdcpbConfigAdapter(schemaClient),
+		driver:           d,
+	}
+}
